@@ -15,7 +15,10 @@ MANIFEST = dict(
           "caps currently in the source (regenerated constants) are <= 1000 (libccd, capped MPR stages, EPA, both "
           "Nesterov variants); the exit logic of the two unbounded Jolt loops (_distance_loop/_intersection_loop) "
           "contracts |v|^2 by (1-eps) per continuing iteration, hence n*eps*tol^2 < |v0|^2 (no infinite run); mesh hill "
-          "climbing makes <= #vertices moves. The exit-logic model is tied to the code by replaying recorded per-"
+          "climbing (after repair e900ae9 of F-mesh-hill-climb-cycle) makes <= #vertices-1 moves in exact reals AND in "
+          "any arithmetic whose `<` is a strict order with `thr < a-b -> b < a` (hill_climbing_bound_anyArith: floating "
+          "point and NaN included); the code before the repair could cycle forever "
+          "(hill_climbing_asIs_before_fix_counterexample). The exit-logic model is tied to the code by replaying recorded per-"
           "iteration observations of real runs through the Lean driver (exit kind and iteration count must match). "
           "The '<= 1000 support evaluations' clause for the unbounded loops, termination of MPR _refine_portal and of "
           "the original GJK, and finiteness of outputs are explored by a counting proxy + watchdog over a corpus "
@@ -503,8 +506,24 @@ def cap_formulas():
             "gjk_nesterov_accelerated_primitives(accel)": 2 * (nep + 1)}
 
 
+# the scene on which gjk.gjk never returned before repair e900ae9 (found by the C09 search): the mesh support call
+# for the direction GJK converges to (orthogonal to the closest face) went round that face forever
+REGRESSION_SCENES = [
+    ("regression:F-mesh-hill-climb-cycle",
+     ("Ellipse", np.array([41.7135882613145, -15.480147820908677, -33.563979143418734]),
+      np.array([[-0.41146057898001565, -0.5335595824812993, 0.7389278475519865],
+                [-0.7990701653127203, 0.6011392653306755, -0.01088368433930581]]),
+      np.array([5.175783394342907, 0.6909119916861448])),
+     ("MeshGraph", np.array([[-0.10966894913031311, 0.6324592283517531, -0.7667907446424727, 19.28351920246887], [-0.6628226925221764, 0.5283434976440056, 0.5305838546120218, 4.759683153429734], [0.7407015592492736, 0.5664348797258196, 0.36126545248015485, -28.008247653780774], [0.0, 0.0, 0.0, 1.0]]),
+      np.array([[-3.78512628971234, -16.601875570384927, 16.88597561025981], [-9.607604402191436, -17.408859556673708, 12.501779876495267], [-0.7345686878099724, -13.801944192192568, -21.587406053314755], [-24.40967886124935, 11.66998012168632, 1.4264037689047169], [10.395744034613372, -14.241016995489666, 18.402034053525597], [-23.97498950318238, 11.830048091421386, -3.8468143259886034], [21.494978728017855, 0.7137184386945459, -19.939179490073027], [26.673365097695786, 8.183461355926632, -5.239724659398261]]),
+      np.array([[4, 7, 3], [4, 2, 1], [6, 4, 7], [6, 4, 2], [0, 1, 3], [0, 4, 3], [0, 4, 1], [5, 6, 2], [5, 1, 3], [5, 2, 1], [5, 7, 3], [5, 6, 7]], dtype=int)), False),
+]
+
+
 def search(ctx):
     COUNTER.install()
+    for label, s1, s2, same in REGRESSION_SCENES:     # fixed findings first
+        run_scene(ctx, label, s1, s2, same)
     n = ctx.budget(330, 2500) * (3 if ctx.extra.get("search_boost") else 1)
     for label, s1, s2, same in degenerate_scenes(ctx.rng, n):
         if ctx.extra.get("hangs", 0) >= 3:
